@@ -165,6 +165,7 @@ func runC10(c *Ctx) {
 	c.rule("R-RING-MIRROR", 1, "every store A.next = B has in the same block a store B.prev = A and vice versa")
 	c.rule("R-YIELD", 4, "Stack.Each, List.Each, Queue.Each, ring.scan/Each stop after f returned false")
 	ruleNoopGuard(c, "ring")
+	ruleDetachReadsOld(c)
 	ruleWrapChecked(c)
 	ruleSizeGuard(c, "stack", "mlink", "ring")
 	ruleEmptyAgreesLen(c, "stack", "Stack")
@@ -1097,6 +1098,95 @@ func paramAlwaysFresh(p *ssa.Parameter) bool {
 // is justified only when the function would otherwise store exactly that value
 // into exactly that link: the skipped write would change nothing.  A shortcut
 // on any other equality skips writes that matter.
+// ruleDetachReadsOld (R-DETACH-OLD-LINKS): Ring.Pop closes the ring it leaves behind by joining the receiver's
+// former neighbours, so the receiver's own links must be read BEFORE they are overwritten with the self-links.  A
+// read of r.prev or r.next that is dominated by a store to that field of r (direct, or through a helper that
+// stores into its parameter's link, like link(a, b)) sees the receiver itself: the partner is never closed.
+func ruleDetachReadsOld(c *Ctx) {
+	c.rule("R-DETACH-OLD-LINKS", 0, "in ring.Pop the receiver's links are read before they are overwritten")
+	P := c.P
+	pop := P.Func("ring", "Ring", "Pop")
+	nextF, prevF := P.Field("ring", "Ring", "next"), P.Field("ring", "Ring", "prev")
+	if pop == nil || nextF == nil || prevF == nil || len(pop.Params) == 0 {
+		return
+	}
+	r := ssa.Value(pop.Params[0])
+	// helper summaries: which link fields of which parameter a package function stores
+	type pf struct {
+		p int
+		f *types.Var
+	}
+	sum := map[*ssa.Function][]pf{}
+	for _, h := range P.PkgFuncs("ring") {
+		allInstrs(h, func(in ssa.Instruction) {
+			st, ok := in.(*ssa.Store)
+			if !ok {
+				return
+			}
+			fa, ok := st.Addr.(*ssa.FieldAddr)
+			if !ok {
+				return
+			}
+			_, f := fieldVarOf(fa)
+			if !sameField(f, nextF) && !sameField(f, prevF) {
+				return
+			}
+			for i, p := range h.Params {
+				if fa.X == ssa.Value(p) {
+					sum[h] = append(sum[h], pf{i, f})
+				}
+			}
+		})
+	}
+	type kill struct {
+		in ssa.Instruction
+		f  *types.Var
+	}
+	var kills []kill
+	allInstrs(pop, func(in ssa.Instruction) {
+		switch x := in.(type) {
+		case *ssa.Store:
+			if fa, ok := x.Addr.(*ssa.FieldAddr); ok && fa.X == r {
+				if _, f := fieldVarOf(fa); sameField(f, nextF) || sameField(f, prevF) {
+					kills = append(kills, kill{in, f})
+				}
+			}
+		case *ssa.Call:
+			if h := origin(staticCallee(&x.Call)); h != nil {
+				for _, e := range sum[h] {
+					if e.p < len(x.Call.Args) && x.Call.Args[e.p] == r {
+						kills = append(kills, kill{in, e.f})
+					}
+				}
+			}
+		}
+	})
+	n := 0
+	allInstrs(pop, func(in ssa.Instruction) {
+		ld, ok := in.(*ssa.UnOp)
+		if !ok || ld.Op != token.MUL {
+			return
+		}
+		fa, ok := ld.X.(*ssa.FieldAddr)
+		if !ok || fa.X != r {
+			return
+		}
+		_, f := fieldVarOf(fa)
+		if !sameField(f, nextF) && !sameField(f, prevF) {
+			return
+		}
+		n++
+		stale := token.NoPos
+		for _, k := range kills {
+			if sameField(k.f, f) && dominatesInstr(k.in, ld) {
+				stale = k.in.Pos()
+			}
+		}
+		c.sawFn(fnName(pop))
+		c.judge(stale == token.NoPos, "R-DETACH-OLD-LINKS", fmt.Sprintf("%s:read of .%s #%d", fnName(pop), f.Name(), n), ld.Pos(), "read before the receiver's links are overwritten", fmt.Sprintf("Pop reads r.%s after it was overwritten at %s: what it gets is the receiver itself, not the former neighbour, so the ring left behind is not closed", f.Name(), P.pos(stale)))
+	})
+}
+
 func ruleNoopGuard(c *Ctx, pkg string) {
 	c.rule("R-NOOP-GUARD", 1, "a no-op exit taken on `x.f == v` skips a function that stores v into x.f: the equality tested is the one the skipped write would establish")
 	for _, fn := range c.P.PkgFuncs(pkg) {
